@@ -851,6 +851,88 @@ fn show_misc(dump: &Dump) -> String {
     })
 }
 
+/// the three panic sites of procfs-core 0.17's maps parser (src/process/mod.rs), by line number
+fn maps_panic_class(site: &str) -> &'static str {
+    if !site.contains("procfs-core") {
+        "other"
+    } else if site.contains("process/mod.rs:473:") {
+        "stack"
+    } else if site.contains("process/mod.rs:478:") {
+        "sysv"
+    } else if site.contains("process/mod.rs:538:") {
+        "smaps"
+    } else {
+        "other"
+    }
+}
+
+/// `maps:` — every entry of `MinidumpLinuxMaps` (addresses, permission bits, offset, device, inode, path
+/// kind) and `memory_info_at_address` at both ends of every entry and next to them
+fn show_maps(dump: &Dump) -> String {
+    use procfs_core::process::MMapPath as P;
+    use std::os::unix::ffi::OsStrExt;
+    let maps = match dump.get_stream::<MinidumpLinuxMaps>() {
+        Err(e) => return err_name(&e),
+        Ok(m) => m,
+    };
+    let mut probes: Vec<(u64, Option<usize>)> = meter::unmetered(Vec::new);
+    let ends: Vec<(u64, u64)> = meter::unmetered(|| maps.iter().map(|r| r.map.address).collect());
+    let first = maps.iter().next().map(|r| r as *const MinidumpLinuxMapInfo);
+    for (lo, hi) in ends {
+        let mut addrs = [None; 4];
+        if lo > 0 {
+            addrs[0] = Some(lo - 1);
+        }
+        addrs[1] = Some(lo);
+        addrs[2] = Some(hi);
+        if hi < u64::MAX {
+            addrs[3] = Some(hi + 1);
+        }
+        for a in addrs.into_iter().flatten() {
+            let hit = maps.memory_info_at_address(a).map(|h| h as *const MinidumpLinuxMapInfo);
+            // the regions live in one vector: the index is the pointer distance
+            let idx = match (hit, first) {
+                (Some(h), Some(f)) => Some((h as usize - f as usize) / std::mem::size_of::<MinidumpLinuxMapInfo>()),
+                _ => None,
+            };
+            meter::unmetered(|| probes.push((a, idx)));
+        }
+    }
+    meter::unmetered(|| {
+        let mut s = String::from("ok [");
+        for (k, r) in maps.iter().enumerate() {
+            let x = &r.map;
+            if k > 0 {
+                s.push(';');
+            }
+            let path = match &x.pathname {
+                P::Path(p) => format!("p{}", hex(p.as_os_str().as_bytes())),
+                P::Heap => "h".into(),
+                P::Stack => "s".into(),
+                P::TStack(t) => format!("t{t}"),
+                P::Vdso => "d".into(),
+                P::Vvar => "v".into(),
+                P::Vsyscall => "y".into(),
+                P::Rollup => "r".into(),
+                P::Anonymous => "a".into(),
+                P::Vsys(k) => format!("k{}", *k as u32),
+                P::Other(o) => format!("o{}", hex(o.as_bytes())),
+            };
+            let _ = write!(s, "{},{},{},{},{},{},{},{}", x.address.0, x.address.1, x.perms.bits(), x.offset, x.dev.0 as u32, x.dev.1 as u32, x.inode, path);
+        }
+        s.push_str("]|");
+        let ps: Vec<String> = probes
+            .iter()
+            .map(|(a, i)| match i {
+                None => format!("{a}:~"),
+                Some(i) => format!("{a}:{i}"),
+            })
+            .collect();
+        s.push_str(&ps.join(","));
+        s
+    })
+}
+
 // ------------------------------------------------------------------------------ phase B (sweep)
 
 fn sweep(dump: &Dump, o: &mut Out) {
@@ -1197,6 +1279,9 @@ fn run_case(all: &[u8], shared: &Arc<meter::Shared>) -> CaseOut {
                             // apart here; the generator's TEB-region cases cover it
                         }
                     }
+                    if tag == "maps" && s.starts_with("PANIC:") {
+                        o.tags.push(format!("maps={}", s.replace(':', "-")));
+                    }
                     if class != "err StreamNotFound" && class != "other" {
                         present += 1;
                         o.tags.push(format!("{tag}={}", class.replace(' ', "-")));
@@ -1223,6 +1308,12 @@ fn run_case(all: &[u8], shared: &Arc<meter::Shared>) -> CaseOut {
             addx(&mut o, "boot", "get_stream::<MinidumpMacBootargs>", &|| show_bootargs(&dump));
             // third group (`MdModel.DumpFull.readMore`)
             addx(&mut o, "misc", "get_stream::<MinidumpMiscInfo> + accessors + print", &|| show_misc(&dump));
+            // the Linux-maps reader can panic (known finding): the group then names the panic site's class
+            let maps_s = match o.guard("get_stream::<MinidumpLinuxMaps> + memory_info_at_address", || show_maps(&dump)) {
+                Some(s) => s,
+                None => format!("PANIC:{}", maps_panic_class(&LAST_PANIC.with(|p| p.borrow().clone()))),
+            };
+            addx(&mut o, "maps", "-", &|| maps_s.clone());
             let gm = o
                 .guard("get_memory", || match dump.get_memory() {
                     Some(UnifiedMemoryList::Memory64(_)) => "mem64",
@@ -1757,6 +1848,41 @@ impl W {
     }
 }
 
+/// A raw MISC_INFO stream of `size` bytes: `flags1` as given, the UTF-16 arrays filled per `units`
+/// (0 = plain text with a terminator somewhere, 1 = no NUL at all, 2 = lone surrogates, 3 = all NUL,
+/// 4 = random mix), `xstate_data.enabled_features` = `enabled`.
+fn misc_blob(rng: &mut Rng, be: bool, size: usize, flags: u32, units: u32, enabled: u64) -> Vec<u8> {
+    let mut w = W { buf: Vec::new(), be };
+    let mut k = 0u32;
+    while w.buf.len() + 2 <= size + 2 {
+        let u: u16 = match units {
+            0 => if k % 29 == 17 { 0 } else { 0x41 + (k % 26) as u16 },
+            1 => 0x61 + (k % 26) as u16,
+            2 => match k % 5 { 0 => 0xd800, 1 => 0x41, 2 => 0xdc00, 3 => 0xd83d, _ => 0xde00 },
+            3 => 0,
+            _ => match rng.below(10) { 0 => 0, 1 => 0xd800, 2 => 0xdc00, 3 => 0xfffe, _ => (0x20 + rng.below(0x60)) as u16 },
+        };
+        if be { w.buf.extend_from_slice(&u.to_be_bytes()) } else { w.buf.extend_from_slice(&u.to_le_bytes()) }
+        k += 1;
+    }
+    w.buf.truncate(size);
+    if size >= 8 {
+        w.put32(0, size as u32);
+        w.put32(4, flags);
+    }
+    // the scalar fields between the header and the time zone: small numbers
+    let mut at = 8;
+    while at + 4 <= size.min(60) {
+        w.put32(at, rng.below(5000) as u32);
+        at += 4;
+    }
+    if size >= 848 {
+        let b = if be { enabled.to_be_bytes() } else { enabled.to_le_bytes() };
+        w.buf[840..848].copy_from_slice(&b);
+    }
+    w.buf
+}
+
 fn crafted_dump(rng: &mut Rng, be: bool, idx: usize) -> Vec<u8> {
     let mut w = W { buf: Vec::new(), be };
     // header, patched at the end
@@ -2055,6 +2181,28 @@ fn crafted_dump(rng: &mut Rng, be: bool, idx: usize) -> Vec<u8> {
         w.u32(42);
         w.u32(rng.below(4) as u32);
         dir.push((0x4767_0002, w.here() - at, at));
+    }
+    // a raw MISC_INFO stream: every revision's size, one byte off, between revisions; flag words that
+    // enable everything / nothing / single groups; fixed UTF-16 arrays without terminator or with lone
+    // surrogates; every XSTATE feature enabled
+    if rng.chance(1, 2) {
+        let base = *rng.pick(&[24usize, 44, 232, 832, 1364]);
+        let size = match rng.below(8) {
+            0 => base - 1,
+            1 => base + 1,
+            2 => base + 7,
+            3 => rng.below(1500) as usize,
+            _ => base,
+        };
+        let r32 = rng.next() as u32;
+        let flags = *rng.pick(&[0u32, u32::MAX, 0x3f7, 0x100, 0x40, 0x200, 0x2, r32 & 0x3ff, r32]);
+        let r64 = rng.next();
+        let enabled = *rng.pick(&[0u64, u64::MAX, 1, 1 << 63, 0x8000_0000_0000_01ff, r64]);
+        let units = rng.below(5) as u32;
+        let blob = misc_blob(rng, be, size, flags, units, enabled);
+        let at = w.here();
+        w.buf.extend_from_slice(&blob);
+        dir.push((15, blob.len() as u32, at));
     }
     if rng.chance(1, 2) {
         // records first, then the header pointing at them. Every record version, string tables that
@@ -2515,6 +2663,23 @@ impl Engine for Read {
             for sd in [-1, -8, 1, 8, 200, -100] {
                 for nrec in [1u32, 2, 20, 21, u32::MAX] {
                     emit(case_line(&mac_cut_dump(version, sd, full, nrec, false).0, "directed-mac"));
+                }
+            }
+        }
+        // ---- directed: MISC_INFO streams of every revision size (exact, one byte short / long) x flag words
+        // x contents of the fixed UTF-16 arrays x byte order
+        for (bi, base) in [24usize, 44, 232, 832, 1364].into_iter().enumerate() {
+            for delta in [0i64, -1, 1] {
+                for (fi, flags) in [0u32, u32::MAX, 0x3f7].into_iter().enumerate() {
+                    for units in 0..4u32 {
+                        let be = (bi + fi + units as usize) % 2 == 1;
+                        let size = (base as i64 + delta) as usize;
+                        let blob = misc_blob(rng, be, size, flags, units, if units % 2 == 0 { u64::MAX } else { 0x8000_0000_0000_0105 });
+                        let mut w = start_dump(be);
+                        let at = w.here();
+                        w.buf.extend_from_slice(&blob);
+                        emit(case_line(&finish_dump(w, &[(15, blob.len() as u32, at)]), "directed-misc"));
+                    }
                 }
             }
         }
